@@ -25,7 +25,7 @@ CLAIM = {
  'design_ref': 'DESIGN.md section 6 C18',
 }
 
-EXTRA_LEAN_TARGETS = ('drv_c04',)     # the C03/C04 specification encoder builds the indexed RP66V1 files of the rlefile stream
+EXTRA_LEAN_TARGETS = ('drv_c04', 'drv_c03')     # the C03/C04 specification encoder builds the indexed RP66V1 files of the rlefile stream
 ANCHOR_FILES = ['src/TotalDepth/util/XmlWrite.py', 'src/TotalDepth/RP66V1/IndexXML.py', 'src/TotalDepth/common/Rle.py']
 
 RULE = ('xmlenc: every single code point in U+0000..U+02FF plus all Char-production boundaries, plus random strings mixed '
@@ -37,7 +37,9 @@ RULE = ('xmlenc: every single code point in U+0000..U+02FF plus all Char-product
         'lists with runs written through xml_rle_write; rlefloat: FLOAT sequences (exact and accumulated grids, near-regular '
         'with deviations spread over 1e-17..1e-6 relative, time-like, depth-like, equal runs, random; float64 and float32) '
         'through create_rle + xml_rle_write, read back and expanded; rlefile: generated RP66V1 files (C03/C04 specification '
-        'encoder) with FDOUBL/FSINGL X channels indexed and written by write_logical_file_sequence_to_xml; producers: see harness/gen/c18_producers.py. A case is '
+        'encoder) with FDOUBL/FSINGL X channels indexed and written by write_logical_file_sequence_to_xml; eflrfile: generated '
+        'RP66V1 files (C03 specification encoder) whose ASCII/IDENT/UNITS values carry valid UTF-8 2/3/4-byte sequences, isolated '
+        'high bytes, mixtures, all representable bytes, all 256 bytes, walked value by value against the in-memory index (bytes exact via latin-1); producers: see harness/gen/c18_producers.py. A case is '
         'non-trivial when it contains at least one character needing escaping (xmlenc), at least two nested elements and '
         'one escaped string (xmlrun), or at least one run of length >= 3 (rle); distinct by content.')
 ASSUMPTIONS = [
@@ -1028,6 +1030,133 @@ def run_index_files(ctx):
     ctx.sample({'op': 'rlefile', 'frame_types': len(cases[0][0]), 'x': cases[0][2][0]['x'][:6], 'frame_numbers': cases[0][2][0]['no'][:6]})
 
 
+# ------------------------------------------------------------------ stream 6: generated EFLR tables -> XML index, byte-exact
+
+_UTF8 = [b'\xc2\xb0', b'\xc3\xa9', b'\xc2\xb5', b'\xd0\x96', b'\xc2\x80', b'\xdf\xbf',                       # 2 bytes
+         b'\xe2\x82\xac', b'\xe2\x80\xa8', b'\xe4\xb8\xad', b'\xef\xbf\xbd', b'\xe0\xa0\x80',              # 3 bytes
+         b'\xf0\x9f\x98\x80', b'\xf0\x90\x80\x80', b'\xf4\x8f\xbf\xbf']                                    # 4 bytes
+_ISOLATED = [b'\x80', b'\xa0', b'\xb0', b'\xe9', b'\xff', b'\xc2', b'\xe2\x82', b'\xf0\x9f\x98', b'\xc0\xaf', b'\xed\xa0\x80', b'\xfe']
+_REPRESENTABLE_BYTES = bytes(b for b in range(256) if b in (9, 10, 13) or b >= 32)
+BYTES_CLASSES = ['ascii', 'markup', 'utf8', 'utf8', 'isolated', 'mixed', 'latin', 'all-representable', 'all256', 'ctrl', 'empty']
+
+
+def gen_bytes_value(rng, cls, maxlen=255):
+    w = lambda: rng.choice([b'18', b'deg', b'GR', b' ', b'Run 1', b'0.1 in', b'x', b'caf', b'T=', b'/', b'm'])
+    if cls == 'empty': return b''
+    if cls == 'ascii': v = b''.join(w() for _ in range(rng.randint(1, 5)))
+    elif cls == 'markup': v = b''.join(rng.choice([w(), b'<', b'>', b'&', b'"', b"'", b'&amp;', b']]>', b'--']) for _ in range(rng.randint(2, 6)))
+    elif cls == 'utf8': v = b''.join(rng.choice([w(), rng.choice(_UTF8), rng.choice(_UTF8)]) for _ in range(rng.randint(1, 6)))
+    elif cls == 'isolated': v = b''.join(rng.choice([w(), rng.choice(_ISOLATED)]) for _ in range(rng.randint(1, 6)))
+    elif cls == 'mixed': v = b''.join(rng.choice([w(), rng.choice(_UTF8), rng.choice(_ISOLATED), b'<&>', b'\t', b'\r\n']) for _ in range(rng.randint(2, 8)))
+    elif cls == 'latin': v = bytes(rng.randint(0xa0, 0xff) for _ in range(rng.randint(1, 12)))
+    elif cls == 'all-representable': v = _REPRESENTABLE_BYTES
+    elif cls == 'all256': v = bytes(range(256))
+    else: v = b''.join(rng.choice([w(), bytes([rng.choice([0, 1, 8, 11, 12, 14, 27, 31])])]) for _ in range(rng.randint(1, 4)))
+    return v[:maxlen]
+
+
+def gen_eflr_file(rng):
+    """Items of one logical file for the C03 specification encoder: FILE-HEADER, ORIGIN and 1..3 tables (PARAMETER,
+    TOOL, COMMENT, ...) whose ASCII (20) / IDENT (19) / UNITS (27) *values* carry the byte classes; names, labels and
+    attribute units stay ASCII (the writers decode those as ASCII), some with markup.  -> (items, [bytes values])"""
+    from props import c03
+    A = c03._a
+    bv = lambda b: ['b', b.hex()]
+    items = [['E', 0, c03.file_header_table(rng, 0)],
+             ['E', 1, {'stype': b'ORIGIN'.hex(), 'sname': b''.hex(),
+                       'cols': [{'inv': False, 'attr': A(b'FILE-ID', 1, 20)}, {'inv': False, 'attr': A(b'WELL-NAME', 1, 20)}],
+                       'rows': [{'name': [0, 0, b'ORIGIN1'.hex()],
+                                 'cells': [A(b'FILE-ID', 1, 20, b'', [bv(gen_bytes_value(rng, rng.choice(['ascii', 'utf8', 'latin'])))]),
+                                           A(b'WELL-NAME', 1, 20, b'', [bv(gen_bytes_value(rng, rng.choice(['ascii', 'utf8', 'mixed', 'markup'])))])]}]}]]
+    values = [bytes.fromhex(c['value'][0][1]) for c in items[1][2]['rows'][0]['cells']]
+    # only one file in seven holds characters XML cannot represent (F13 class: the whole document is then unreadable)
+    classes = BYTES_CLASSES if rng.random() < 0.14 else [c for c in BYTES_CLASSES if c not in ('ctrl', 'all256')]
+    for t in range(rng.randint(1, 3)):
+        ncols = rng.randint(1, 4)
+        labels = rng.sample([b'LONG-NAME', b'VALUES', b'DESCRIPTION', b'TEXT', b'ZONES', b'A<B', b'R&D', b'Q"', b"IT'S", b'X-1'], ncols)
+        specs = [(lab, rng.choice([20, 20, 20, 19, 27]), rng.choice([b'', b'm', b'0.1 in', b'deg<C>', b'ohm&m'])) for lab in labels]
+        cols = [{'inv': False, 'attr': A(lab, 1, rc, un)} for lab, rc, un in specs]
+        rows = []
+        for r in range(rng.randint(1, 4)):
+            cells = []
+            for lab, rc, un in specs:
+                n = rng.choice([1, 1, 1, 2, 3])
+                vs = [gen_bytes_value(rng, rng.choice(classes), 255 if rc in (19, 27) else 400) for _ in range(n)]
+                values += vs
+                cells.append(A(lab, n, rc, un, [bv(v) for v in vs]))
+            rows.append({'name': [rng.choice([0, 1, 44]), rng.randint(0, 3), (rng.choice([b'P', b'TOOL_', b'A&B', b'<x>', b"q'", b'n']) + b'%d%d' % (t, r)).hex()],
+                         'cells': cells})
+        items.append(['E', rng.choice([5, 5, 6, 200]), {'stype': rng.choice([b'PARAMETER', b'TOOL', b'COMMENT', b'ZONE', b'X<Y>']).hex(),
+                                                        'sname': rng.choice([b'', b'set&1', b'S']).hex(), 'cols': cols, 'rows': rows}])
+    return items, values
+
+
+def oracle_eflr_file(ctx, recs, values):
+    """Index the generated file, write the XML index (private), read it back and walk every EFLR / Object / Attribute /
+    Value against the in-memory index (c18_producers._check_index_doc: bytes compared through latin-1, exactly); in
+    addition every generated bytes value must be the latin-1 encoding of some <Value type="bytes"> of the document."""
+    import logging
+    from gen import c18_xmlcheck as xc, c03phys, c18_producers as P
+    from TotalDepth.RP66V1 import IndexXML
+    from TotalDepth.RP66V1.core import LogicalFile
+    ctx.count('oracle_cases')
+    case = {'op': 'eflrfile', 'recs': [[e, x, ty, b.hex()] for e, x, ty, b in recs], 'values': [v.hex() for v in values]}
+    path = os.path.join(ctx.scratch, 'eflrfile_%d.dlis' % ctx.stats['oracle_cases'])
+    with open(path, 'wb') as fh:
+        fh.write(c03phys.wrap(recs, None))
+    logging.disable(logging.CRITICAL)
+    try:
+        out = io.StringIO()
+        with LogicalFile.LogicalIndex(path) as li:
+            IndexXML.write_logical_file_sequence_to_xml(li, out, True)
+            res = xc.parse_both(out.getvalue())
+            strings = [v.decode('latin-1') for v in values]
+            if not res['ok']:
+                fail(ctx, case, f'XML index not well-formed: lxml: {res["lxml_err"]}; minidom: {res["dom_err"]}',
+                     finding=xc.classify_not_wf(res, strings))
+                return False
+            msgs = P._check_index_doc(li, res['lxml_root'], True)
+    except Exception as e:
+        ctx.fail(case, f'indexing / writing the XML index of a generated conformant file raised {type(e).__name__}: {e}')
+        return False
+    finally:
+        logging.disable(logging.NOTSET)
+        if os.path.exists(path): os.unlink(path)
+    if not msgs:
+        try:
+            got = [v.get('value').encode('latin-1') for v in res['lxml_root'].iter('Value') if v.get('type') == 'bytes']
+        except UnicodeEncodeError as e:
+            msgs = [f'a <Value type="bytes"> cannot be turned back into bytes: {e}']
+        else:
+            import collections
+            missing = collections.Counter(values) - collections.Counter(got)
+            if missing:
+                v = next(iter(missing))
+                msgs = [f'generated bytes value {v!r} is not reproduced by any <Value type="bytes"> ({len(got)} values in the document)']
+    if msgs:
+        ctx.fail(case, f'{len(msgs)} difference(s) between the XML index and the indexed data: ' + ' ;; '.join(msgs[:3]))
+        return False
+    if any(b >= 0x80 for v in values for b in v):
+        ctx.nontriv(('eflrfile', hash(tuple(values))))
+    return True
+
+
+def run_eflr_files(ctx):
+    from props import c03
+    rng = ctx.rng
+    cases = [gen_eflr_file(rng) for _ in range(ctx.n(300, 3000))]
+    try:
+        enc = ctx.lean([c03.items_request(rng, [items], []) for items, _ in cases], name='C03')
+    except Exception as e:
+        ctx.note(f'eflrfile stream not run: C03 specification encoder unavailable ({type(e).__name__}: {str(e)[:120]})')
+        return
+    for (items, values), reply in zip(cases, enc):
+        oracle_eflr_file(ctx, c03.parse_recs(reply), values)
+    ctx.count('eflrfile_cases', len(cases))
+    ctx.count('eflrfile_bytes_values', sum(len(v) for _, v in cases))
+    ctx.sample({'op': 'eflrfile', 'values': [v.decode('latin-1') for v in cases[0][1][:5]]})
+
+
 # ------------------------------------------------------------------ entry points
 
 def run(ctx):
@@ -1037,6 +1166,7 @@ def run(ctx):
     run_rle(ctx)
     run_rle_float(ctx)
     run_index_files(ctx)
+    run_eflr_files(ctx)
     try:
         from gen import c18_producers
     except ImportError:
@@ -1081,6 +1211,8 @@ def replay(ctx, rec):
         oracle_rle(ctx, case['xs'], case['hex'])
     elif op == 'rlefloat':
         oracle_rle_float(ctx, [float.fromhex(h) for h in case['xs']], case['f32'])
+    elif op == 'eflrfile':
+        oracle_eflr_file(ctx, [(e, x, ty, bytes.fromhex(b)) for e, x, ty, b in case['recs']], [bytes.fromhex(v) for v in case['values']])
     elif op == 'rlefile':
         lp = [{'name': [ft['name'][0], ft['name'][1], bytes.fromhex(ft['name'][2])],
                'chans': [{'ident': bytes.fromhex(c['ident']), 'rc': c['rc'], 'dims': c['dims']} for c in ft['chans']]} for ft in case['lp']]
